@@ -16,10 +16,14 @@ def o_desolvation_far_atom(ctx):
     desolvation / buried count (two runs on the same symbols)"""
     import propka.energy as E
     import propka.group as G
-    p = H.params()
+    # the burial thresholds are user settings: Nmin symbolic and small, so that the handful of atoms of this kernel straddles it
+    # (the count of a group's neighbours must not depend on how many atoms the file holds in all)
+    p = H.params(fresh=True)
+    nmin = ctx.int('Nmin', 0, 6)
+    p.Nmin, p.Nmax = nmin, nmin + 4
 
     def world(with_far):
-        conf = H.conformation()
+        conf = H.conformation(p=p)
         ga = H.atom('CG', 'ASP', 10, 'A', 0.0, 0.0, 0.0)
         conf.add_atom(ga)
         grp = G.COOGroup(ga)
@@ -471,7 +475,7 @@ def obligations(tier):
     D = 'propka/determinants.py:'
     obs = [
         Obligation('O1a-desolvation-far-atom', o_desolvation_far_atom, code=[E + 'radial_volume_desolvation'],
-                   bounds='group + 2 near atoms (symbolic x in [-25,25]) + 1 atom (C4/O/S) anywhere in [-100,100]^3 with |r|^2 >= 400',
+                   bounds='group + 2 near atoms (symbolic x in [-25,25]) + 1 atom (C4/O/S) anywhere in [-100,100]^3 with |r|^2 >= 400; parameters Nmin symbolic in [0,6], Nmax = Nmin + 4 (the atom count of the kernel straddles Nmin)',
                    claim_doc='energy_volume, num_volume, buried identical with and without the far atom', max_paths=3000),
         Obligation('O1b-pair-beyond-cutoff', o_pair_beyond_cutoff, code=[D + 'set_determinants', 'propka/calculations.py:distance'],
                    bounds='5 type pairs, second group anywhere in the PDB coordinate range with centre distance >= 10, both list orders',
